@@ -109,6 +109,32 @@ def step (st : Drv.T2.St) (cmd : String) (args : List String) : Drv.T2.St × Str
     match st.var v, runP (Drv.T2.pSetter f) toks with
     | some id, some σ => let (st', r) := run s (.set id σ); (st', outText r)
     | _, _ => (st, "bad-op set")
+  | "c15.handles", [_, t] =>     -- copy / assign / move / destroy: no model content
+    if t == "-" || (st.var t).isSome then (st, "ok") else (st, "bad-op var")
+  | "db.q", q :: rest =>
+    let call (c : Api.GuardedTracksV2.Call) : String :=
+      match (Api.GuardedTracksV2.callG Drv.T2.hwOps s st.db c).2 with
+      | .ok (.ids l) => "ok " ++ showIds (sortInts (l.map Int.ofNat))
+      | .ok (.oid (some i)) => s!"ok {i}"
+      | .ok (.oid none) => "ok none"
+      | .ok _ => "ok"
+      | .throw e => "throw " ++ e.toString
+      | .ub u => "ub " ++ u.toString
+    match q, rest with
+    | "tracks", [] => (st, call .dbTracks)
+    | "track_by_id", [i] =>
+      match i.toInt? with
+      | some i => (st, if i < 0 then "ok none" else call (.dbTrackById i.toNat))
+      | none => (st, "bad-op i64")
+    | "tracks_by_path", [h] =>
+      match parseHexBytes h with
+      | some p => (st, call (.dbTracksByPath p))
+      | none => (st, "bad-op hex")
+    | "uuid", [] => (st, call .dbUuid)
+    | "version_name", [] => (st, call .dbVersionName)
+    | "directory", [] => (st, call .dbDirectory)
+    | "verify", [] => (st, call .dbVerify)
+    | _, _ => (st, "bad-op db query")
   | _, _ => Drv.T2.step st cmd args
 
 def mode : Drv.Mode := Drv.mkMode "c15tv2" ({} : Drv.T2.St) step
@@ -190,6 +216,32 @@ def step (st : Drv.TracksV1.St) (cmd : String) (args : List String) : Drv.Tracks
       | some val => let (st', r) := run (.set id f val); (st', outText r)
       | none => (st, "bad-op set value")
     | _, _ => (st, "bad-op set")
+  | "c15.handles", [_, t] =>     -- copy / assign / move / destroy: no model content
+    if t == "-" || (lookupVar st t).isSome then (st, "ok") else (st, "bad-op var")
+  | "db.q", q :: rest =>
+    let call (c : Api.GuardedTracksV1.Call) : String :=
+      match (Api.GuardedTracksV1.callG Drv.TracksV1.fops d c).2 with
+      | .ok (.ids l) => "ok " ++ showIds (sortInts l)
+      | .ok (.oid (some i)) => s!"ok {i}"
+      | .ok (.oid none) => "ok none"
+      | .ok _ => "ok"
+      | .throw e => "throw " ++ e.toString
+      | .ub u => "ub " ++ u.toString
+    match q, rest with
+    | "tracks", [] => (st, call .dbTracks)
+    | "track_by_id", [i] =>
+      match i.toInt? with
+      | some i => (st, call (.dbTrackById i))
+      | none => (st, "bad-op i64")
+    | "tracks_by_path", [h] =>
+      match parseHexBytes h with
+      | some p => (st, call (.dbTracksByPath p))
+      | none => (st, "bad-op hex")
+    | "uuid", [] => (st, call .dbUuid)
+    | "version_name", [] => (st, call .dbVersionName)
+    | "directory", [] => (st, call .dbDirectory)
+    | "verify", [] => (st, call .dbVerify)
+    | _, _ => (st, "bad-op db query")
   | _, _ => Drv.TracksV1.step st cmd args
 
 def mode : Drv.Mode := Drv.mkMode "c15tv1" ({} : Drv.TracksV1.St) step
@@ -242,7 +294,14 @@ def step (st : Drv.CratesV1.St) (cmd : String) (args : List String) : Drv.Crates
       match parseHexBytes n with
       | some n => (st, "ok " ++ optId (rootCrateByName db n))
       | none => (st, "bad-op hex")
+    | "uuid", [] => (st, "ok")            -- uuid / version_name / directory / verify: no model content
+    | "version_name", [] => (st, "ok")
+    | "directory", [] => (st, "ok")
+    | "verify", [] => (st, "ok")
     | _, _ => (st, "bad-op db query")
+  | "c15.handles", [c, t] =>     -- copy / assign / move / destroy: no model content
+    if (c == "-" || (get st.cvars c).isSome) && (t == "-" || (get st.tvars t).isSome) then (st, "ok") else (st, "bad-op var")
+  | "c15.crate_db", [v] => withCrate st v fun _ => (st, "ok")     -- crate::db(): a new handle on the same storage
   | "get", [v, q] =>
     withTrack st v fun t =>
     match q with
@@ -379,6 +438,32 @@ def step (st : Drv.CratesV2.St) (cmd : String) (args : List String) : Drv.Crates
     match parseHexBytes n with
     | some n => (st, resText Drv.CratesV2.showOpt (qByParentNameG d 0 n))
     | none => (st, "bad-op args")
+  | "db.q", ["track_by_id", i] =>
+    match i.toInt? with
+    | some i => (st, resText id ((queryG d (.trackById i)).bind fun _ =>
+        .ok (if d.tracks.contains i then toString i else "none")))
+    | none => (st, "bad-op args")
+  | "db.q", ["uuid"] => (st, resText (fun _ => "") (queryG d .dbUuid))
+  | "db.q", ["version_name"] => (st, resText (fun _ => "") (queryG d .dbVersionName))
+  | "db.q", ["directory"] => (st, resText (fun _ => "") (queryG d .dbDirectory))
+  | "db.q", ["verify"] => (st, resText (fun _ => "") (queryG d .dbVerify))
+  | "c15.handles", [c, t] =>     -- copy / assign / move / destroy: no model content
+    if (c == "-" || (cr c).isSome) && (t == "-" || (tr t).isSome) then (st, "ok") else (st, "bad-op var")
+  | "c15.crate_db", [v] =>
+    match cr v with
+    | some c => (st, resText (fun _ => "") (queryG d (.crateDb c)))
+    | none => (st, "bad-op crate var")
+  | "c15.add_tracks", v :: ts =>
+    -- crate::add_tracks(first, last): the header template `for (it …) add_track(*it)`
+    match cr v, ts.mapM tr with
+    | some c, some ids =>
+      let rec go (st : Drv.CratesV2.St) : List Int → Drv.CratesV2.St × String
+        | [] => (st, "ok")
+        | t :: rest =>
+          let p := okOnly (doOpG st (.addTrack c t))
+          if p.2 == "ok" then go p.1 rest else p
+      go st ids
+    | _, _ => (st, "bad-op args")
   | "get", [v, q] =>
     match tr v with
     | some t =>
